@@ -16,19 +16,47 @@ type fkey struct {
 	tab, ref tbl
 }
 type tch struct {
-	kind byte // '+', '-', '~', 'o'
+	kind byte // '+', '-', '~', 'o', 'c' (column of enum type e: k = 0 AddColumn, 1 ModifyColumn, 2 DropColumn)
 	f, g fkey // g = To of a ModifyFK
 	k    int
+	e    int // 'c': pointer id of the *schema.EnumType
 }
 type chg struct {
-	kind byte // 'A', 'D', 'M'
-	t    tbl
-	fks  []fkey
-	tcs  []tch
+	kind  byte // 'A', 'D', 'M', 'P' (AddObject enum), 'Q' (DropObject enum)
+	t     tbl
+	fks   []fkey
+	tcs   []tch
+	types []int // A/D/M: pointer ids of the enum types of the table's columns
+	e     int   // P/Q: pointer id of the enum object
 }
 type catalogue struct {
-	tabs []int
-	fks  [][3]int // child, symbol, parent
+	tabs  []int
+	fks   [][3]int // child, symbol, parent
+	types []int    // existing enum types (by name k; objects 2k, 2k+1); not part of the model's catalogue
+	uses  [][2]int // (table, enum name): a column of the table has that type
+}
+
+func (s *scenario) hasTypes() bool {
+	for _, c := range s.cs {
+		if len(c.types) > 0 {
+			return true
+		}
+		for _, tc := range c.tcs {
+			if tc.kind == 'c' {
+				return true
+			}
+		}
+	}
+	return false
+}
+
+func (s *scenario) hasObjects() bool {
+	for _, c := range s.cs {
+		if c.kind == 'P' || c.kind == 'Q' {
+			return true
+		}
+	}
+	return false
 }
 type scenario struct {
 	cat catalogue
@@ -50,15 +78,29 @@ func (s *scenario) caseLine() string {
 		fmt.Fprintf(&b, " %d %d %d", f[0], f[1], f[2])
 	}
 	fmt.Fprintf(&b, " %d", len(s.cs))
+	ext := s.hasObjects() || s.hasTypes() // only the oracle-only stage "objects": the model has no enum types
+	types := func(ts []int) string {
+		if !ext {
+			return ""
+		}
+		var sb strings.Builder
+		fmt.Fprintf(&sb, " %d", len(ts))
+		for _, e := range ts {
+			fmt.Fprintf(&sb, " %d", e)
+		}
+		return sb.String()
+	}
 	for _, c := range s.cs {
 		switch c.kind {
+		case 'P', 'Q':
+			fmt.Fprintf(&b, " %c %d", c.kind, c.e)
 		case 'A', 'D':
-			fmt.Fprintf(&b, " %c %s %d", c.kind, c.t.line(), len(c.fks))
+			fmt.Fprintf(&b, " %c %s%s %d", c.kind, c.t.line(), types(c.types), len(c.fks))
 			for _, f := range c.fks {
 				b.WriteString(" " + f.line())
 			}
 		case 'M':
-			fmt.Fprintf(&b, " M %s %d", c.t.line(), len(c.tcs))
+			fmt.Fprintf(&b, " M %s%s %d", c.t.line(), types(c.types), len(c.tcs))
 			for _, tc := range c.tcs {
 				switch tc.kind {
 				case '+', '-':
@@ -67,6 +109,8 @@ func (s *scenario) caseLine() string {
 					fmt.Fprintf(&b, " ~ %s %s", tc.f.line(), tc.g.line())
 				case 'o':
 					fmt.Fprintf(&b, " o %d", tc.k)
+				case 'c':
+					fmt.Fprintf(&b, " c %d %d", tc.k, tc.e)
 				}
 			}
 		}
@@ -77,8 +121,25 @@ func (s *scenario) caseLine() string {
 // ---- construction of the real schema.Change values
 
 type world struct {
-	intT string
-	tabs map[int]*schema.Table
+	intT  string
+	tabs  map[int]*schema.Table
+	enums map[int]*schema.EnumType
+}
+
+// enum returns the *schema.EnumType object with pointer id e; objects 2k and 2k+1 are the current
+// and the desired object of the enum named eNN (k). The id is carried in Values for the decoder.
+func (w *world) enum(e int) *schema.EnumType {
+	if x, ok := w.enums[e]; ok {
+		return x
+	}
+	x := &schema.EnumType{T: fmt.Sprintf("e%02d", e/2), Values: []string{fmt.Sprintf("id%d", e)}}
+	w.enums[e] = x
+	return x
+}
+
+func (w *world) enumCol(name string, e int) *schema.Column {
+	t := w.enum(e)
+	return schema.NewColumn(name).SetType(t)
 }
 
 func tname(n int) string { return fmt.Sprintf("t%02d", n) }
@@ -100,10 +161,23 @@ func (w *world) fk(f fkey) *schema.ForeignKey {
 
 // build makes fresh Go objects for the scenario (one *schema.Table per id).
 func (s *scenario) build(intT string) []schema.Change {
-	w := &world{intT: intT, tabs: map[int]*schema.Table{}}
+	w := &world{intT: intT, tabs: map[int]*schema.Table{}, enums: map[int]*schema.EnumType{}}
 	var out []schema.Change
 	for _, c := range s.cs {
+		if c.kind == 'P' {
+			out = append(out, &schema.AddObject{O: w.enum(c.e)})
+			continue
+		}
+		if c.kind == 'Q' {
+			out = append(out, &schema.DropObject{O: w.enum(c.e)})
+			continue
+		}
 		t := w.table(c.t)
+		if len(t.Columns) == 2 { // the enum-typed columns of the table, once
+			for i, e := range c.types {
+				t.AddColumns(w.enumCol(fmt.Sprintf("c%d", i), e))
+			}
+		}
 		switch c.kind {
 		case 'A', 'D':
 			t.ForeignKeys = nil
@@ -132,6 +206,17 @@ func (s *scenario) build(intT string) []schema.Change {
 					} else {
 						m.Changes = append(m.Changes, &schema.DropColumn{C: col})
 					}
+				case 'c':
+					col := w.enumCol(fmt.Sprintf("y%d", tc.e), tc.e)
+					switch tc.k {
+					case 0:
+						m.Changes = append(m.Changes, &schema.AddColumn{C: col})
+					case 1:
+						from := schema.NewIntColumn(col.Name, intT)
+						m.Changes = append(m.Changes, &schema.ModifyColumn{From: from, To: col, Change: schema.ChangeType})
+					default:
+						m.Changes = append(m.Changes, &schema.DropColumn{C: col})
+					}
 				}
 			}
 			out = append(out, m)
@@ -149,12 +234,38 @@ type otc struct {
 	kind byte
 	f, g ofk
 	k    int
+	e    int
 }
 type ochg struct {
-	kind byte
-	t    int
-	fks  []ofk
-	tcs  []otc
+	kind  byte
+	t     int
+	fks   []ofk
+	tcs   []otc
+	types []int // enum ids of the table's columns (A, D)
+	e     int   // P, Q
+}
+
+// enumID: the pointer id of an enum-typed column type (carried in Values), -1 otherwise.
+func enumID(ct *schema.ColumnType) int {
+	if ct == nil {
+		return -1
+	}
+	if e, ok := ct.Type.(*schema.EnumType); ok && len(e.Values) == 1 {
+		if n, err := strconv.Atoi(strings.TrimPrefix(e.Values[0], "id")); err == nil {
+			return n
+		}
+	}
+	return -1
+}
+
+func tableTypes(t *schema.Table) []int {
+	var ts []int
+	for _, c := range t.Columns {
+		if e := enumID(c.Type); e >= 0 {
+			ts = append(ts, e)
+		}
+	}
+	return ts
 }
 
 func num(s string) int {
@@ -176,14 +287,24 @@ func obsFK(f *schema.ForeignKey) ofk {
 // observe decodes a change of the plan. ok=false for a change kind outside the model.
 func observe(c schema.Change) (ochg, bool) {
 	switch c := c.(type) {
+	case *schema.AddObject:
+		if e, ok := c.O.(*schema.EnumType); ok {
+			return ochg{kind: 'P', e: enumID(&schema.ColumnType{Type: e})}, true
+		}
+		return ochg{}, false
+	case *schema.DropObject:
+		if e, ok := c.O.(*schema.EnumType); ok {
+			return ochg{kind: 'Q', e: enumID(&schema.ColumnType{Type: e})}, true
+		}
+		return ochg{}, false
 	case *schema.AddTable:
-		o := ochg{kind: 'A', t: num(c.T.Name)}
+		o := ochg{kind: 'A', t: num(c.T.Name), types: tableTypes(c.T)}
 		for _, f := range c.T.ForeignKeys {
 			o.fks = append(o.fks, obsFK(f))
 		}
 		return o, true
 	case *schema.DropTable:
-		o := ochg{kind: 'D', t: num(c.T.Name)}
+		o := ochg{kind: 'D', t: num(c.T.Name), types: tableTypes(c.T)}
 		for _, f := range c.T.ForeignKeys {
 			o.fks = append(o.fks, obsFK(f))
 		}
@@ -199,9 +320,23 @@ func observe(c schema.Change) (ochg, bool) {
 			case *schema.ModifyForeignKey:
 				o.tcs = append(o.tcs, otc{kind: '~', f: obsFK(tc.From), g: obsFK(tc.To)})
 			case *schema.AddColumn:
-				o.tcs = append(o.tcs, otc{kind: 'o', k: num(tc.C.Name)})
+				if e := enumID(tc.C.Type); e >= 0 {
+					o.tcs = append(o.tcs, otc{kind: 'c', k: 0, e: e})
+				} else {
+					o.tcs = append(o.tcs, otc{kind: 'o', k: num(tc.C.Name)})
+				}
+			case *schema.ModifyColumn:
+				if e := enumID(tc.To.Type); e >= 0 {
+					o.tcs = append(o.tcs, otc{kind: 'c', k: 1, e: e})
+				} else {
+					return o, false
+				}
 			case *schema.DropColumn:
-				o.tcs = append(o.tcs, otc{kind: 'o', k: num(tc.C.Name)})
+				if e := enumID(tc.C.Type); e >= 0 {
+					o.tcs = append(o.tcs, otc{kind: 'c', k: 2, e: e})
+				} else {
+					o.tcs = append(o.tcs, otc{kind: 'o', k: num(tc.C.Name)})
+				}
 			case *schema.DropIndex:
 				// MySQL drops the index a modified FK created; not part of the observable.
 			default:
@@ -217,6 +352,9 @@ func (f ofk) String() string { return fmt.Sprintf("%d.%d", f.sym, f.ref) }
 
 func (o ochg) String() string {
 	var parts []string
+	if o.kind == 'P' || o.kind == 'Q' {
+		return fmt.Sprintf("%c:%d", o.kind, o.e)
+	}
 	switch o.kind {
 	case 'A', 'D':
 		for _, f := range o.fks {
@@ -231,6 +369,8 @@ func (o ochg) String() string {
 				parts = append(parts, "~"+tc.f.String()+">"+tc.g.String())
 			case 'o':
 				parts = append(parts, fmt.Sprintf("o%d", tc.k))
+			case 'c':
+				parts = append(parts, fmt.Sprintf("c%d.%d", tc.k, tc.e))
 			}
 		}
 	}
